@@ -13,6 +13,7 @@ import (
 	"encoding/json"
 	"flag"
 	"fmt"
+	"hash/crc32"
 	"io"
 	"math"
 	"os"
@@ -175,7 +176,20 @@ type reply struct {
 	PerrN    int
 	Metrics  []DMetric
 	Panic    string
+	// TCP stream requests
+	FrameLens  []int
+	FrameSums  []uint32
+	FramingErr bool
+	Hang       bool
+	Fail       string
 }
+
+const (
+	modeReused   = 0 // the long-lived batch object, poisoned afterwards
+	modeFresh    = 1 // a brand-new batch object
+	modeNoPoison = 2 // the long-lived object, its decoded content is left in place for the next packet
+	modeTCP      = 4 // payload = writes ([len32][bytes])*, through the real stream receiver
+)
 
 type recorder struct {
 	rep *reply
@@ -208,11 +222,31 @@ func worker() {
 		if _, err := io.ReadFull(in, lb[:]); err != nil {
 			return
 		}
-		pkt := make([]byte, binary.LittleEndian.Uint32(lb[:]))
-		if _, err := io.ReadFull(in, pkt); err != nil {
+		req := make([]byte, binary.LittleEndian.Uint32(lb[:]))
+		if _, err := io.ReadFull(in, req); err != nil {
 			return
 		}
+		mode, pkt := req[0], req[1:]
 		rep := reply{PerrLen: -1}
+		if mode == modeTCP {
+			var writes [][]byte
+			for len(pkt) >= 4 {
+				n := int(binary.LittleEndian.Uint32(pkt))
+				writes = append(writes, pkt[4:4+n])
+				pkt = pkt[4+n:]
+			}
+			frames, fe, hang, fail := receiver.VerifTCPStream(writes, 6*time.Second)
+			for _, f := range frames {
+				rep.FrameLens = append(rep.FrameLens, len(f))
+				rep.FrameSums = append(rep.FrameSums, crc32.ChecksumIEEE(f))
+			}
+			rep.FramingErr, rep.Hang, rep.Fail = fe, hang, fail
+			b, _ := json.Marshal(rep)
+			out.Write(b)
+			out.WriteByte('\n')
+			out.Flush()
+			continue
+		}
 		func() {
 			defer func() {
 				if p := recover(); p != nil {
@@ -220,7 +254,11 @@ func worker() {
 					w = receiver.NewVerifWire()
 				}
 			}()
-			acc, err := w.Parse(&recorder{&rep}, pkt)
+			ww := w
+			if mode == modeFresh {
+				ww = receiver.NewVerifWire()
+			}
+			acc, err := ww.ParseOpt(&recorder{&rep}, pkt, mode != modeNoPoison)
 			rep.Acc = acc
 			if err != nil {
 				rep.Err = true
@@ -263,13 +301,16 @@ func (c *child) stop() {
 }
 
 // run returns the reply, or outcome "crash" / "hang"
-func (c *child) run(pkt []byte) (reply, string) {
+func (c *child) run(pkt []byte) (reply, string) { return c.runMode(modeReused, pkt) }
+
+func (c *child) runMode(mode byte, pkt []byte) (reply, string) {
 	if c.cmd == nil {
 		c.start()
 	}
 	var lb [4]byte
-	binary.LittleEndian.PutUint32(lb[:], uint32(len(pkt)))
+	binary.LittleEndian.PutUint32(lb[:], uint32(len(pkt)+1))
 	c.in.Write(lb[:])
+	c.in.Write([]byte{mode})
 	c.in.Write(pkt)
 	type res struct {
 		line []byte
@@ -419,6 +460,60 @@ func encPBMetric(m Metric, packed bool) []byte {
 			c = protowire.AppendFixed64(c, h[1])
 			w = pbLen(w, 7, c)
 		}
+	}
+	return w
+}
+
+// proto3 as C++/Java/protocute write it: default-valued fields (empty strings, zeros, empty lists) are omitted
+func encPBMin(b []Metric) []byte {
+	var w []byte
+	str := func(w []byte, num protowire.Number, d []byte) []byte {
+		if len(d) == 0 {
+			return w
+		}
+		return pbLen(w, num, d)
+	}
+	f64 := func(w []byte, num protowire.Number, v uint64) []byte {
+		if v == 0 {
+			return w
+		}
+		return protowire.AppendFixed64(protowire.AppendTag(w, num, protowire.Fixed64Type), v)
+	}
+	for _, m := range b {
+		x := str(nil, 1, m.Name)
+		for _, t := range m.Tags {
+			e := str(nil, 1, t[0])
+			e = str(e, 2, t[1])
+			x = pbLen(x, 2, e)
+		}
+		if m.Counter != nil {
+			x = f64(x, 3, *m.Counter)
+		}
+		if m.Ts != nil && *m.Ts != 0 {
+			x = protowire.AppendVarint(protowire.AppendTag(x, 4, protowire.VarintType), uint64(*m.Ts))
+		}
+		if m.Value != nil && len(*m.Value) > 0 {
+			var d []byte
+			for _, v := range *m.Value {
+				d = protowire.AppendFixed64(d, v)
+			}
+			x = pbLen(x, 5, d)
+		}
+		if m.Unique != nil && len(*m.Unique) > 0 {
+			var d []byte
+			for _, v := range *m.Unique {
+				d = protowire.AppendVarint(d, uint64(v))
+			}
+			x = pbLen(x, 6, d)
+		}
+		if m.Hist != nil {
+			for _, h := range *m.Hist {
+				c := f64(nil, 1, h[0])
+				c = f64(c, 2, h[1])
+				x = pbLen(x, 7, c)
+			}
+		}
+		w = pbLen(w, 13337, x)
 	}
 	return w
 }
@@ -1023,14 +1118,152 @@ func (g gen) hostileMP() []byte {
 	return w
 }
 
+// ---------- TCP framing through the real stream receiver ----------
+
+type tframe struct {
+	hdr  uint32 // length announced
+	body int    // bytes actually sent after the header (== hdr unless truncated / illegal)
+	fill byte
+	hcut int // < 4: only that many header bytes are sent (stream ends there)
+}
+
+func (x *ctx) tcpCase(name string, fs []tframe, split int, r *vu.Rng) {
+	var stream []byte
+	var pieces []string
+	var wantLens []int
+	var wantSums []uint32
+	wantErr, open := false, true
+	var bounds []int
+	for _, f := range fs {
+		var h [4]byte
+		binary.LittleEndian.PutUint32(h[:], f.hdr)
+		hb := h[:]
+		if f.hcut < 4 {
+			hb = h[:f.hcut]
+		}
+		stream = append(stream, hb...)
+		if len(hb) > 0 {
+			pieces = append(pieces, "PB "+hx(hb))
+		}
+		body := make([]byte, f.body)
+		for i := range body {
+			body[i] = f.fill
+		}
+		stream = append(stream, body...)
+		if f.body > 0 {
+			pieces = append(pieces, fmt.Sprintf("PF %d %d", f.body, f.fill))
+		}
+		bounds = append(bounds, len(stream))
+		// independent expectation: frames are delivered in order until an illegal or incomplete one
+		if open {
+			switch {
+			case f.hcut < 4:
+				open = false
+			case f.hdr > 65535:
+				open, wantErr = false, true
+			case f.body < int(f.hdr):
+				open = false
+			default:
+				wantLens = append(wantLens, f.body)
+				wantSums = append(wantSums, crc32.ChecksumIEEE(body))
+			}
+		}
+	}
+	// how the client writes the stream
+	var writes [][]byte
+	switch split {
+	case 0:
+		writes = [][]byte{stream}
+	case 1: // one write per frame
+		prev := 0
+		for _, b := range bounds {
+			writes = append(writes, stream[prev:b])
+			prev = b
+		}
+	default: // random cuts, headers included
+		prev := 0
+		for prev < len(stream) {
+			n := 1 + r.Intn(7)
+			if r.Chance(40) {
+				n = 1 + r.Intn(70000)
+			}
+			if prev+n > len(stream) {
+				n = len(stream) - prev
+			}
+			writes = append(writes, stream[prev:prev+n])
+			prev += n
+		}
+	}
+	var req []byte
+	for _, w := range writes {
+		req = binary.LittleEndian.AppendUint32(req, uint32(len(w)))
+		req = append(req, w...)
+	}
+	rep, fate := x.c.runMode(modeTCP, req)
+	var desc []string
+	for _, f := range fs {
+		desc = append(desc, fmt.Sprintf("%d/%d/%d", f.hdr, f.body, f.hcut))
+	}
+	input := fmt.Sprintf("tcp %s frames(hdr/sent/hdrbytes)=%s split=%d writes=%d", name, strings.Join(desc, ","), split, len(writes))
+	lens := make([]int64, len(rep.FrameLens))
+	for i, l := range rep.FrameLens {
+		lens[i] = int64(l)
+	}
+	term := fmt.Sprintf("CFrames [%s] %s %s", strings.Join(pieces, "; "), vu.ListZ(lens), vu.B(rep.FramingErr))
+	line := x.o.Case(input, term, true, "tcp")
+	switch {
+	case fate != "" || rep.Hang:
+		x.o.Fail("tcp_frame_delivered_or_rejected_no_hang", line, input+" "+fate)
+		x.c.stop() // a stuck connection goroutine keeps spinning in that child
+	case rep.Fail != "":
+		panic("tcp harness: " + rep.Fail)
+	default:
+		if !reflect.DeepEqual(rep.FrameLens, wantLens) && !(len(rep.FrameLens) == 0 && len(wantLens) == 0) ||
+			!reflect.DeepEqual(rep.FrameSums, wantSums) && !(len(rep.FrameSums) == 0 && len(wantSums) == 0) || rep.FramingErr != wantErr {
+			x.o.Fail("tcp_frames_as_sent", line, fmt.Sprintf("%s got=%v err=%v want=%v err=%v", input, rep.FrameLens, rep.FramingErr, wantLens, wantErr))
+		}
+	}
+}
+
+func (x *ctx) tcpCases(r *vu.Rng) {
+	full := func(n int, fill byte) tframe { return tframe{hdr: uint32(n), body: n, fill: fill, hcut: 4} }
+	k := 0
+	run := func(name string, fs ...tframe) {
+		x.tcpCase(name, fs, k%3, r)
+		k++
+	}
+	run("empty-frame", full(0, 1))
+	run("small", full(1, 1), full(0, 2), full(2, 3))
+	for _, n := range []int{65531, 65532, 65533, 65534, 65535} {
+		run("max-boundary", full(n, 7), full(5, 8))
+	}
+	run("two-max", full(65535, 1), full(65535, 2), full(1, 3))
+	run("illegal-65536", full(3, 1), tframe{hdr: 65536, body: 20, fill: 2, hcut: 4}, full(4, 3))
+	run("illegal-max", full(7, 1), tframe{hdr: 0xffffffff, body: 0, hcut: 4})
+	run("truncated-body", full(10, 1), tframe{hdr: 100, body: 50, fill: 2, hcut: 4})
+	run("truncated-header", full(10, 1), tframe{hdr: 9, body: 0, hcut: 2})
+	run("max-then-truncated", full(65535, 4), tframe{hdr: 65535, body: 65534, fill: 5, hcut: 4})
+	for j := 0; j < 3; j++ {
+		var fs []tframe
+		for q := 0; q < 2+r.Intn(4); q++ {
+			fs = append(fs, full(int(r.Pick(0, 1, 4, 100, 1000, 65531, 65532, 65533, 65534, 65535, int64(r.Intn(65536)))), byte(q+1)))
+		}
+		if r.Chance(30) {
+			fs = append(fs, tframe{hdr: uint32(65536 + r.Intn(10)), body: r.Intn(10), fill: 9, hcut: 4})
+		}
+		run("random", fs...)
+	}
+}
+
 // ---------- main ----------
 
 const limitKB = 3000000 // ulimit -v of the child
 const modelLimit = int64(1) << 31
 
 type ctx struct {
-	o *vu.Out
-	c *child
+	o    *vu.Out
+	c    *child
+	rich []byte
 }
 
 func short(p []byte) string {
@@ -1084,8 +1317,61 @@ func (x *ctx) oracles(line int, input string, pkt []byte, rep reply, fate string
 	}
 }
 
-func (x *ctx) pktCase(kind string, pkt []byte, nontrivial bool) (reply, string) {
+// richPacket: a TL batch whose decoding leaves REAL content in every slot of the reused batch object: 4 metrics with
+// 18 tags (long keys and values), counter, ts, 18 values, uniques and centroids each.
+func richPacket() []byte {
+	var b []Metric
+	for i := 0; i < 4; i++ {
+		m := Metric{Name: []byte(fmt.Sprintf("previous_metric_name_%d_%s", i, strings.Repeat("n", 40)))}
+		for k := 0; k < 18; k++ {
+			m.Tags = append(m.Tags, [2][]byte{[]byte(fmt.Sprintf("previous_key_%02d_%s", k, strings.Repeat("k", 30))), []byte("production_" + strings.Repeat("v", 40))})
+		}
+		c, t := math.Float64bits(4242.5), uint32(1234567890)
+		m.Counter, m.Ts = &c, &t
+		v, u, h := make([]uint64, 18), make([]int64, 18), make([][2]uint64, 18)
+		for k := range v {
+			v[k], u[k], h[k] = math.Float64bits(1000+float64(k)), int64(-7000-k), [2]uint64{math.Float64bits(55.5), math.Float64bits(66.5)}
+		}
+		m.Value, m.Unique, m.Hist = &v, &u, &h
+		b = append(b, m)
+	}
+	return encTL(b)
+}
+
+// parse decodes pkt through the long-lived (reused) batch object — after a rich packet when rich is set — and through
+// a fresh one; diff describes how the two differ ("" when they agree).
+func (x *ctx) parse(pkt []byte, rich bool) (reply, string, string) {
+	if rich {
+		if x.rich == nil {
+			x.rich = richPacket()
+		}
+		x.c.runMode(modeNoPoison, x.rich)
+	}
 	rep, fate := x.c.run(pkt)
+	if fate != "" {
+		return rep, fate, ""
+	}
+	fr, ffate := x.c.runMode(modeFresh, pkt)
+	if ffate != "" {
+		return rep, fate, " fresh-object run: " + ffate
+	}
+	if fr.Err != rep.Err || fr.PerrLen != rep.PerrLen || fr.Acc != rep.Acc || !sameD(fr.Metrics, rep.Metrics) {
+		return rep, fate, fmt.Sprintf(" reused=%s fresh=%s", dsTerm(rep.Metrics), dsTerm(fr.Metrics))
+	}
+	return rep, fate, ""
+}
+
+func (x *ctx) reuseOracle(line int, input, diff string) {
+	if diff != "" {
+		if len(diff) > 400 {
+			diff = diff[:400] + "…"
+		}
+		x.o.Fail("decode_into_reused_batch_equals_fresh", line, input+diff)
+	}
+}
+
+func (x *ctx) pktCase(kind string, pkt []byte, nontrivial bool) (reply, string) {
+	rep, fate, diff := x.parse(pkt, strings.HasPrefix(kind, "pbmin") || strings.HasPrefix(kind, "gopb") || strings.HasPrefix(kind, "multi"))
 	input := kind + " " + short(pkt)
 	f := fmtOfAcc(rep.Acc)
 	if fate != "" {
@@ -1094,11 +1380,12 @@ func (x *ctx) pktCase(kind string, pkt []byte, nontrivial bool) (reply, string) 
 	term := fmt.Sprintf("CPkt %d %s %s %s %s", modelLimit, hxs(pkt), f, dsTerm(rep.Metrics), endTerm(rep, fate))
 	line := x.o.Case(input, term, nontrivial, kind, "end/"+strings.Fields(strings.Trim(endTerm(rep, fate), "()"))[0], "fmt/"+f)
 	x.oracles(line, input, pkt, rep, fate)
+	x.reuseOracle(line, input, diff)
 	return rep, fate
 }
 
 func (x *ctx) encCase(f string, b []Metric, pkt []byte, want []DMetric, wantFmt string, failName string) []DMetric {
-	rep, fate := x.c.run(pkt)
+	rep, fate, diff := x.parse(pkt, true)
 	input := fmt.Sprintf("enc %s %s", f, short(pkt))
 	ref := make([]DMetric, len(b))
 	for i := range b {
@@ -1115,6 +1402,7 @@ func (x *ctx) encCase(f string, b []Metric, pkt []byte, want []DMetric, wantFmt 
 	term := fmt.Sprintf("CEnc %s %s %s %s %s %s", f, msTerm(b), hxs(pkt), of, obs, endTerm(rep, fate))
 	line := x.o.Case(input, term, len(b) > 0, "enc/"+strings.Fields(strings.Trim(f, "()"))[0])
 	x.oracles(line, input, pkt, rep, fate)
+	x.reuseOracle(line, input, diff)
 	if fate == "" && rep.Panic == "" {
 		if rep.Err || !sameD(rep.Metrics, want) {
 			x.o.Fail(failName, line, input)
@@ -1130,7 +1418,7 @@ func (x *ctx) jsonCase(kind string, t *jt, b []Metric, nontrivial bool) (reply, 
 	var sb strings.Builder
 	t.render(&sb)
 	pkt := []byte(sb.String())
-	rep, fate := x.c.run(pkt)
+	rep, fate, diff := x.parse(pkt, true)
 	input := kind + " " + sb.String()
 	if len(input) > 280 {
 		input = input[:280] + "…"
@@ -1153,6 +1441,7 @@ func (x *ctx) jsonCase(kind string, t *jt, b []Metric, nontrivial bool) (reply, 
 	term := fmt.Sprintf("CJson %s %d (%s) %s %s %s", numTab(tab), pkt[0], tt.String(), bt, obs, vu.B(rep.Err))
 	line := x.o.Case(input, term, nontrivial, kind)
 	x.oracles(line, input, pkt, rep, fate)
+	x.reuseOracle(line, input, diff)
 	return rep, fate == ""
 }
 
@@ -1252,6 +1541,7 @@ func main() {
 	defer x.c.stop()
 
 	x.findings()
+	x.tcpCases(g.r)
 	// every documented prefix exactly, one byte short, one byte more; the neighbours of the MessagePack map range
 	for _, h := range []string{"", "39025856", "390258", "3902585600", "39025857", "7b", "7a", "5348", "53", "534800", "5349",
 		"de", "de00", "de0000", "df", "df000000", "df00000000", "80", "8f", "7f", "90", "81", "c0", "dd", "cac106", "cac10600", "00", "ff"} {
@@ -1314,6 +1604,44 @@ func main() {
 				rep, fate := x.pktCase("gopb", gp, true)
 				if fate == "" && (rep.Err || !sameView(rep.Metrics, sortTagsLike(rep.Metrics, want))) {
 					o.Fail("generated_pb_decodes_to_same_view", o.N-1, "gopb "+short(gp))
+				}
+			}
+			// proto3-minimal encodings, with empty tag keys/values, empty names and zero numbers forced in
+			bm := make([]Metric, len(b))
+			for k := range b {
+				bm[k] = b[k]
+				bm[k].Tags = append([][2][]byte(nil), b[k].Tags...)
+				for j := range bm[k].Tags {
+					switch g.r.Intn(4) {
+					case 0:
+						bm[k].Tags[j][1] = nil
+					case 1:
+						if j == 0 {
+							bm[k].Tags[j][0] = nil
+						}
+					}
+				}
+				if g.r.Chance(30) {
+					bm[k].Name = nil
+				}
+				if bm[k].Counter != nil && g.r.Chance(30) {
+					z := uint64(0)
+					bm[k].Counter = &z
+				}
+				if bm[k].Hist != nil && len(*bm[k].Hist) > 0 && g.r.Chance(50) {
+					hh := append([][2]uint64(nil), *bm[k].Hist...)
+					hh[0][g.r.Intn(2)] = 0
+					bm[k].Hist = &hh
+				}
+			}
+			if pm := encPBMin(bm); len(pm) > 0 {
+				wantM := make([]DMetric, len(bm))
+				for k := range bm {
+					wantM[k] = canon(bm[k])
+				}
+				rep, fate := x.pktCase("pbmin", pm, true)
+				if fate == "" && (rep.Err || !sameView(rep.Metrics, wantM)) {
+					o.Fail("proto3_minimal_decodes_to_same_view", o.N-1, "pbmin "+short(pm))
 				}
 			}
 			if i%2 == 0 {
